@@ -771,6 +771,45 @@ fn utils_cases(r: &mut Rng, t: Tier, out: &mut Vec<Case>) {
     out.push(c);
 }
 
+/// known finding: a prefix code longer than 32 bits (17 quad levels / 33 binary levels)
+fn deepcode_case(fam: &str) -> Case {
+    let mut c = Case::new(fam);
+    c.tag("deepcode");
+    c.nontrivial = true;
+    let mut w: Vec<usize> = vec![];
+    if fam == "hqwt" {
+        let mut m: Vec<usize> = vec![1, 4];
+        w.extend([1, 1, 1, 1]);
+        for k in 2..18 {
+            let tt = m[k - 2] + 1;
+            w.extend([tt, tt, tt]);
+            let nm = m[k - 1] + 3 * tt;
+            m.push(nm);
+        }
+    } else {
+        w.extend([1, 1]);
+        while w.len() < 34 {
+            let n = w[w.len() - 1] + w[w.len() - 2];
+            w.push(n);
+        }
+    }
+    c.l("cfg 256 0 8 * u8");
+    c.l("tie 1");
+    let mut args = String::new();
+    for (s, cnt) in w.iter().enumerate() {
+        args.push_str(&format!(" {} {}", s, cnt));
+    }
+    c.l(format!("mk 0 {}:rle{}", fam, args));
+    c.l("q 0 len");
+    let n: usize = w.iter().sum();
+    c.l("q 0 get 0");
+    c.l(format!("q 0 get {}", n - 1));
+    c.l(format!("q 0 rank 0 {}", n));
+    c.l(format!("q 0 rank {} {}", w.len() - 1, n));
+    c.l("q 0 select 0 0");
+    c
+}
+
 pub fn cases(prop: &str, t: Tier, seed: u64) -> Vec<Case> {
     let pnum: u64 = prop[1..].parse().unwrap_or(0);
     let mut r = Rng::new(seed.wrapping_mul(1000003).wrapping_add(pnum));
@@ -781,11 +820,17 @@ pub fn cases(prop: &str, t: Tier, seed: u64) -> Vec<Case> {
         "C02" => {
             tree_family_cases(r, t, "hqwt", &["len", "is_empty", "get", "rank", "select", "rank_prefetch"], &["dump 0"], scale(t, 72, 480), &mut out);
             huff_profile_cases(r, t, "hqwt", &["get", "rank", "select"], &["dump 0"], &mut out);
+            if t == Tier::Thorough {
+                out.push(deepcode_case("hqwt"));
+            }
         }
         "C03" => {
             tree_family_cases(r, t, "wt", &["len", "is_empty", "n_levels", "get", "rank", "select"], &["dump 0"], scale(t, 48, 300), &mut out);
             tree_family_cases(r, t, "hwt", &["len", "is_empty", "get", "rank", "select"], &["dump 0"], scale(t, 48, 300), &mut out);
             huff_profile_cases(r, t, "hwt", &["get", "rank", "select"], &["dump 0"], &mut out);
+            if t == Tier::Thorough {
+                out.push(deepcode_case("hwt"));
+            }
         }
         "C05" => rsq_cases(r, t, &["len", "is_empty", "get", "rank", "select", "occs", "occs_smaller"], &["dump 0"], scale(t, 150, 800), &mut out),
         "C06" => rsbin_cases(r, t, &["rsn", "rsw"], &["get", "rank1", "rank0", "select1", "select0", "n_ones", "n_zeros"], &["dump 1"], scale(t, 160, 900), &mut out),
@@ -1189,6 +1234,9 @@ pub fn cases(prop: &str, t: Tier, seed: u64) -> Vec<Case> {
             rsbin_cases(r, t, &["rsn", "rsw"], &["get", "rank1", "rank0", "select1", "select0", "n_ones", "n_zeros"], &[], scale(t, 30, 200), &mut out);
             darray_cases(r, t, &[], scale(t, 12, 80), &mut out);
             bvm_history_cases(r, t, scale(t, 16, 100), &mut out);
+            if t == Tier::Thorough {
+                out.push(deepcode_case("hqwt"));
+            }
             // default-constructed and empty values, clones and deserialised copies of them
             for (b, pfs) in QWT_CFGS {
                 for ty in TYS {
